@@ -41,6 +41,8 @@ func main() {
 	switch fam {
 	case "coll":
 		err = famColl(w, *seed, *n, *labels, *mode, *replay)
+	case "fault":
+		err = famFault(w, *seed, *n)
 	case "history":
 		err = famHistory(w, *seed, *n)
 	case "codec":
